@@ -11,9 +11,20 @@
                  its tree, the raw value having to be [print] of that tree) and then
                    invalid parameter  -> any error is what the property demands
                    valid parameters P -> observed = Project.spec_read P (projection of the full
-                                         read, container bound), and the store is unchanged *)
+                                         read, container bound), and the store is unchanged
+
+    CChain: the parameters reach the selection that is read in SEVERAL STEPS (Find(path?q1), then
+    Find(rest?q2) / Constrain(q2), ...), and/or the target of the read is a LIST (the capture is a
+    list node; its rows are reported as the one-slot content [Some (DList rows)]).
+      corr     : observed = Chain.read_steps_* (one group of constraint entries per step)
+      spec_obs : every step read declaratively ([ProjectChain.interpret_chain]); some step
+                 invalid -> any error; else observed = ProjectChain.spec_chain* (a node is kept
+                 when every step keeps it, a row when it lies in every window given for its list,
+                 every container bound holds), and the store is unchanged
+      known 1  : two or more steps carry fc.range (KNOWN_FINDINGS.txt; Props C07_chain_partial /
+                 C07_chain_full_statement_refuted) *)
 From Coq Require Import ZArith List Bool Strings.Byte Strings.String.
-From YV Require Import Base.Verdict Val.Model Tree.Schema Tree.Editor Tree.Merge Tree.PathExpr Tree.Params Tree.Project Tree.Reading.
+From YV Require Import Base.Verdict Val.Model Tree.Schema Tree.Editor Tree.Merge Tree.PathExpr Tree.Params Tree.Project Tree.Reading Tree.Chain Tree.ProjectChain.
 Import ListNotations.
 Open Scope Z_scope.
 
@@ -23,10 +34,19 @@ Inductive obs :=
 | ObsErr (e : oerr)          (* error class by errors.Is, from Constrain/Find or from UpsertInto *)
 | ObsPanic.
 
+(** where the read starts: a container-like selection (module root, container, list entry: its
+    flat kids and content) or a list selection (the list's schema node and its rows) *)
+Inductive target :=
+| TCont (kids : list snode) (data : content)
+| TList (l : snode) (rows : list dnode).
+
 Inductive case :=
 | CRead (kids : list snode) (data : content) (q : query)
         (asts : list (list byte * pexpr))     (* parameter name -> tree of its path expression *)
-        (unchanged : bool) (o : obs).
+        (unchanged : bool) (o : obs)
+| CChain (t : target) (steps : list query)
+         (asts : list (list (list byte * pexpr)))   (* per step: parameter name -> expression tree *)
+         (unchanged : bool) (o : obs).
 
 Definition res_eqb (m : pres content) (o : obs) : bool :=
   match m, o with
@@ -62,4 +82,36 @@ Definition classify (c : case) : verdict :=
           end
         else true in
       classify_gen corr spec None
+  | CChain t steps asts unchanged o =>
+      let as_content (r : pres (list dnode)) : pres content :=
+        match r with POk rows => POk [Some (DList rows)] | PErr e => PErr e end in
+      let dom := match t with
+                 | TCont kids data => forallb choice_free kids && forallb wf_schema kids
+                                      && shaped (SCont root_meta kids) (DCont data)
+                 | TList l rows => choice_free l && wf_schema l && shaped l (DList rows)
+                                   && match l with SList _ _ _ => true | _ => false end
+                 end in
+      let model := match t with
+                   | TCont kids data => read_steps_content kids data steps
+                   | TList l rows => as_content (read_steps_rows l rows steps)
+                   end in
+      let corr := res_eqb model o in
+      let spec :=
+        if dom then
+          match interpret_chain steps asts with
+          | TBad => is_error o
+          | TOk Ps => res_eqb (match t with
+                               | TCont kids data => spec_chain Ps kids data
+                               | TList l rows => as_content (spec_chain_rows Ps l rows)
+                               end) o && unchanged
+          | TUnk => false
+          end
+        else true in
+      (* known finding 1: two or more steps of the chain carry fc.range (their windows do not
+         intersect: the start row of the later step replaces the earlier one) *)
+      let known := match interpret_chain steps asts with
+                   | TOk Ps => if (2 <=? range_steps Ps)%nat then Some 1%nat else None
+                   | _ => None
+                   end in
+      classify_gen corr spec known
   end.
